@@ -87,7 +87,8 @@ class Fault:
 def harness(eng, fam, P):
     P = dict(P)
     bodies = skeleton(eng, fam, P)
-    progs = [Program(eng, b) for b in bodies]
+    shared = {}
+    progs = [Program(eng, b, shared) for b in bodies]
     eng.path_info['program'] = ' || '.join(show(b) for b in bodies)
     w = World(eng, P.get('universe', U7), sandbox=getattr(eng, 'sandbox', None))
     hist = P['hist']
